@@ -1218,6 +1218,35 @@ def gen_simd_alpha(repo):
     out += 'def simdDiv16Skeleton : List (String × String) := [\n%s]\n\n' % ',\n'.join('  ("%s", "%s")' % (a, b.replace('"', '\\"')) for a, b in rows)
     return out
 
+def gen_simd_kernels(repo):
+    """Shuffle masks and intrinsic skeleton of one fully modelled SIMD kernel:
+    src/convolution/u8x4/sse4.rs::horiz_convolution_one_row (Fir.Model.SimdU8x4, Fir.C02.u8x4_sse4_one_row_eq_portable)."""
+    f = 'src/convolution/u8x4/sse4.rs'
+    with open(os.path.join(repo, f)) as fh:
+        src = fh.read()
+    m = re.search(r'unsafe fn horiz_convolution_one_row<const PRECISION: i32>\(.*?\n\}', src, re.S)
+    if not m:
+        raise TranslationError("%s: horiz_convolution_one_row not found" % f)
+    body = re.sub(r'//[^\n]*', '', m.group(0))
+    masks = []
+    for a in re.finditer(r'let (sh\d+) = _mm_set_epi8\(([^;]*?)\);', body, re.S):
+        vals = [int(x) for x in a.group(2).replace('\n', ' ').split(',') if x.strip()]
+        if len(vals) != 16:
+            raise TranslationError("%s: mask %s does not have 16 entries" % (f, a.group(1)))
+        masks.append((a.group(1), list(reversed(vals))))        # _mm_set_epi8 lists byte 15 first
+    if [n for n, _ in masks] != ['sh1', 'sh2', 'sh3', 'sh4', 'sh5', 'sh6', 'sh7']:
+        raise TranslationError("%s: expected the masks sh1 .. sh7, found %s" % (f, [n for n, _ in masks]))
+    out = ''
+    for n, v in masks:
+        out += '/-- %s: horiz_convolution_one_row: shuffle mask %s, byte 0 first -/\n' % (f, n)
+        out += 'def u8x4_sse4_%s : List Int := [%s]\n\n' % (n, ', '.join(str(x) if x >= 0 else '(%d)' % x for x in v))
+    # skeleton: the statements of the function as (intrinsic or helper, arguments) in textual order
+    calls = re.findall(r'\b(_mm_\w+(?:::<\w+>)?|simd_utils::\w+|chunks_exact|remainder|first)\(([^()]*(?:\([^()]*\)[^()]*)*)\)', body)
+    sk = ' ; '.join('%s(%s)' % (c, ' '.join(a.split())) for c, a in calls if not c.startswith('_mm_set_epi8'))
+    out += '/-- %s: horiz_convolution_one_row: every intrinsic / helper call with its arguments, in textual order -/\n' % f
+    out += 'def u8x4_sse4_one_row_skeleton : String := "%s"\n\n' % sk.replace('"', '\\"')
+    return out
+
 def gen_sizes(repo):
     """Buffer-size expressions of the image constructors."""
     out = ''
@@ -1259,6 +1288,7 @@ GENERATORS = [
     ('Color', gen_color),
     ('FitCrop', gen_fitcrop),
     ('SimdAlpha', gen_simd_alpha),
+    ('SimdKernels', gen_simd_kernels),
 ]
 
 def write_if_changed(path, content):
